@@ -91,12 +91,19 @@ def snap(u):
     return s
 
 
+DOCUMENTED_FIELDS = {'id', 'name', 'resource', 'start', 'end', 'milestone', 'min_start', 'prio', 'extra', 'title', 'x', 'tag', 'flag',
+                     'note', 'iteration', 'region', 'kpi_'}
+
+
 def setlevel(s, owner=True):
-    """Comparison form for C16: dependency lists at set level; owner optional."""
+    """Comparison form for C16: dependency lists at set level; owner optional; attributes restricted to the documented
+    fields and the custom attributes the workloads themselves set (book-keeping attributes an implementation may keep
+    on a task are not relations)."""
     T = {}
     for k, v in s['T'].items():
+        attrs = tuple(a for a in v['attrs'] if a[0] in DOCUMENTED_FIELDS) if isinstance(v['attrs'], tuple) else v['attrs']
         T[k] = (v['parent'], tuple(v['children']), frozenset(v['preds']), frozenset(v['succs']),
-                v['owner'] if owner else None, v['attrs'])
+                v['owner'] if owner else None, attrs)
     return T, {k: tuple(v) for k, v in s['R'].items()}, dict(s['WA'])
 
 
